@@ -148,14 +148,6 @@ def busHangSigs (w : World) (m : Mon) (b : BId) : List String :=
   (if m.dropped.any (fun d => d.1 == b) then ["stop-drop"] else []) ++
   (if (w.bus b).rl == .exited && !(w.bus b).queue.isEmpty then ["stopped-backlog"] else [])
 
-/-- the instance and the instances it runs inside of (through inline activations), innermost first -/
-def execChain (w : World) : Nat → IId → List IId
-  | 0, i => [i]
-  | fuel+1, i =>
-    match (w.inst i).exec with
-    | .inst j => i :: execChain w fuel j
-    | _ => [i]
-
 /-- par-drain: the two instances run inside two different sibling handlers of one event on a parallel bus,
     both of which drain the queues inline -/
 def parDrainSig (w : World) (i1 i2 : IId) : Bool :=
@@ -186,7 +178,7 @@ def Mon.step (m : Mon) (w : World) (l : Label) (w' : World) : Mon × List Vio :=
   let v (prop clause : String) (sigs : List String) (detail : String) : List Vio := [{ prop, clause, sigs, detail }]
   -- late client action of an instance past its deadline
   let late (i : IId) : List Vio :=
-    if (w.inst i).deadline != 0 && (w.inst i).deadline < w.now then
+    if (w.inst i).deadline != 0 && (w.inst i).deadline < w.now && !(w.inst i).cancelling then
       v "C10" "overrun" [] s!"instance {i} acts at {w.now}, deadline {(w.inst i).deadline}" else []
   let (m, vs) : Mon × List Vio := match l with
   | .dispatch p b e res =>
@@ -431,7 +423,9 @@ def Mon.rest (m : Mon) (w : World) : List Vio :=
     if isAwaiting (w.inst i).st then v "C04" "deadlock" [] s!"instance {i} still awaiting at rest" else []) ++
   ((List.range w.nx).flatMap fun x =>
     match w.waiter x with
-    | .join b _ _ | .idleWait b _ | .check b => v "C15" "hang" (busHangSigs w m b) s!"task {x}: wait_until_idle of bus {b} still blocked at rest"
+    | .join b _ _ | .idleWait b _ | .check b =>
+      if stopRelated (busHangSigs w m b) then [] else
+      v "C15" "hang" (busHangSigs w m b) s!"task {x}: wait_until_idle of bus {b} still blocked at rest"
     | .stopping b _ _ => v "C16" "stopHang" [] s!"task {x}: stop() of bus {b} still blocked at rest"
     | _ => []) ++
   ((buses w).flatMap fun b =>
